@@ -213,6 +213,45 @@ fn pnm_read_answers(bytes: &[u8], r: &mut Report, tag: &str) {
     }
 }
 
+/// Images of every sub-format, one after the other in one stream: each read_pnm call consumes exactly its image (the raster of
+/// a binary format has a known length; a text raster ends with its last sample and the one whitespace byte after it).
+fn pnm_mixed_stream(i: u64, r: &mut Report) {
+    r.eval();
+    let files: [(&str, &[u8], (u32, u32, Vec<[u8; 3]>)); 6] = [
+        ("P6", b"P6 2 1 255\n\x01\x02\x03\x0a\x20\x23", (2, 1, vec![[1, 2, 3], [10, 32, 35]])),
+        ("P5", b"P5 3 1 255\n\x07\x50\x36", (3, 1, vec![[7, 7, 7], [0x50, 0x50, 0x50], [0x36, 0x36, 0x36]])),
+        ("P4", b"P4 8 1\n\xa5", (8, 1, [1u8, 0, 1, 0, 0, 1, 0, 1].iter().map(|b| [(1 - b) * 255; 3]).collect())),
+        ("P3", b"P3\n1 2\n255\n1 2 3\n40 50 60\n", (1, 2, vec![[1, 2, 3], [40, 50, 60]])),
+        ("P2", b"P2 2 1 255 9 200\n", (2, 1, vec![[9, 9, 9], [200, 200, 200]])),
+        ("P5 1x1", b"P5 1 1 255\n\x50", (1, 1, vec![[0x50, 0x50, 0x50]])),
+    ];
+    let (a, b, c) = ((i % 6) as usize, (i / 6 % 6) as usize, (i / 36) as usize);
+    let seq = if c < 6 { vec![a, b, c] } else { vec![a, b] };
+    let mut bytes = vec![];
+    for &k in &seq { bytes.extend_from_slice(files[k].1); }
+    bytes.extend_from_slice(b"P7 trailer");
+    let names: Vec<&str> = seq.iter().map(|&k| files[k].0).collect();
+    let case = obj! {"kind" => "pnm-mixed-stream", "i" => i};
+    let mut cur: &[u8] = &bytes;
+    let mut consumed = 0usize;
+    for (n, &k) in seq.iter().enumerate() {
+        let before = cur.len();
+        let got = caught(|| read_pnm(&mut cur).map(|b| (b.width(), b.height(), b.data().iter().map(|c| c.0).collect::<Vec<_>>())).map_err(|e| format!("{e:?}")));
+        consumed += before - cur.len();
+        let want_consumed: usize = seq[..=n].iter().map(|&j| files[j].1.len()).sum();
+        match got {
+            Err(p) => { r.violation(format!("pnm-read-panic|stream|{}", names.join("+")), format!("read_pnm panicked on image {n} of a stream of {names:?}: {p}"), case); return; }
+            Ok(g) => {
+                if g.as_ref().ok() != Some(&files[k].2) || consumed != want_consumed {
+                    r.violation(format!("ppm-stream|mixed|{}|image{n}", names.join("+")), format!("stream of {names:?} + trailer: read {n} ({}) returned {:?} having consumed {consumed} bytes in total, expected the {}x{} image after {want_consumed} bytes", files[k].0, g.as_ref().map(|x| (x.0, x.1)), files[k].2 .0, files[k].2 .1), case);
+                    return;
+                }
+            }
+        }
+    }
+    r.nontrivial();
+}
+
 /// A scratch file private to the calling thread, next to the engine binary (not under /tmp).
 fn scratch_file(ext: &str) -> std::path::PathBuf {
     let dir = std::env::current_exe().ok().and_then(|p| p.parent().map(|d| d.join("scratch"))).unwrap_or_else(|| "scratch".into());
@@ -470,6 +509,8 @@ fn run_pnm(cfg: &Cfg) -> ! {
     for (w, h) in [(0u32, 0u32), (1, 1), (2, 2), (3, 5), (10, 10), (52, 52), (53, 52), (100, 100)] { pnm_write_faults(w, h, &mut rep); }
     // (1c) every answer of the input stream: interruptions and short reads at every call, for each sub-format
     for (tag, f) in [("P6 2x2", &b"P6 2 2 255\n\x01\x02\x03 \n#\x0a\x0d\xff000"[..]), ("P3 2x1", b"P3\n# c\n2 1\n255\n1 2 3\n40 50 60\n"), ("P5 3x1", b"P5 3 1 255\n\x00\x80\xff"), ("P2 1x2", b"P2 1 2 15 0 15"), ("P4 bitmap", b"P4 8 1\n\xa5"), ("truncated", b"P6 2 2 255\n\x01\x02\x03"), ("P6 header split by comments", b"P6#a\n 1#b\n#c\n 1\n255\n\x09\x0a\x0b")] { pnm_read_answers(f, &mut rep, tag); }
+    // (1e) streams of two and three images of every sub-format
+    rep.merge(par_range(cfg, 36 * 7, pnm_mixed_stream));
     // (1d) headers with many digits: images whose extents have 4 .. 8 digits (the header has no fixed size)
     for (w, h) in if quick { vec![(1000u32, 1000u32), (10000, 100), (100, 10000), (1000000, 1), (1, 1000000), (100000, 10), (99999, 10)] } else { vec![(1000u32, 1000u32), (10000, 100), (100, 10000), (1000000, 1), (1, 1000000), (100000, 10), (99999, 10), (4000, 3000), (10000000, 1), (1, 10000000), (12345, 678)] } {
         let buf: Buf2<Color3> = Buf2::new_with((w, h), |x, y| rgb((x % 251) as u8, (y % 241) as u8, HOSTILE[((x + 2 * y) % 9) as usize]));
@@ -901,6 +942,7 @@ fn main() {
                 }
                 "pnm-rt-direct" => { let mut rr = Report::new(); pnm_roundtrip_subviews(&mut rr, false, None); for (_, v) in rr.viols { if v.key.contains("direct") { r.violation(v.key, v.what, v.case); } } }
                 "pnm-faults" => pnm_write_faults(case.get("w").and_then(|j| j.as_u64()).unwrap_or(0) as u32, case.get("h").and_then(|j| j.as_u64()).unwrap_or(0) as u32, r),
+                "pnm-mixed-stream" => pnm_mixed_stream(case.get("i").and_then(|j| j.as_u64()).unwrap_or(0), r),
                 "pnm-answers" => pnm_read_answers(&bytes, r, "replay"),
                 "pnm-digits" => { let (w, h) = (case.get("w").and_then(|j| j.as_u64()).unwrap_or(0) as u32, case.get("h").and_then(|j| j.as_u64()).unwrap_or(0) as u32); let buf: Buf2<Color3> = Buf2::new_with((w, h), |x, y| rgb((x % 251) as u8, (y % 241) as u8, HOSTILE[((x + 2 * y) % 9) as usize])); let px: Vec<[u8; 3]> = buf.data().iter().map(|c| c.0).collect(); pnm_roundtrip_view(buf.as_slice2(), &(w, h, px), r, "replay", case.clone()); }
                 "obj-answers" => obj_read_answers(&bytes, r, "replay"),
